@@ -371,6 +371,7 @@ K_POW = "binaryoperation_node/pow-left-nested"
 K_REL = "binaryoperation_node/relational-chained"
 K_SIGN = "unaryoperation_node/sign-left-of-tighter-binop"
 K_NOT = "unaryoperation_node/not-left-of-tighter-binop"
+K_SIGN_BAD = "unaryoperation_node/sign-follows-binop-invalid-text"
 K_LSIGN = "literal_node/signed-value"
 K_LNOPT = "literal_node/real-without-point"
 K_LDBL = "literal_node/real-double-no-exponent"
@@ -381,24 +382,22 @@ K_STEP = "range_node/unit-step-kind-dropped"
 
 
 def lit_reasons(t):
+    """the (single, primary) reason a literal is not read back unchanged"""
     _, kind, val, prec = t
-    out = []
     if kind in ("INT", "REAL") and val[:1] in ("+", "-"):
-        out.append(K_LSIGN)
-    body = val.lstrip("+-")
+        return [K_LSIGN]
     if kind == "REAL":
-        has_e = "e" in body
-        if not ("." in body or has_e):
-            out.append(K_LNOPT)
-        elif prec == "D" and not has_e:
-            out.append(K_LDBL)
-        elif prec == "S" and not has_e:
-            out.append(K_LSGL)
-        elif prec == "U" and has_e:
-            out.append(K_LEXP)
-    elif prec in ("S", "D"):
-        out.append(K_LPREC)
-    return out
+        has_e = "e" in val
+        if not ("." in val or has_e):
+            return [K_LNOPT]
+        if prec == "D" and not has_e:
+            return [K_LDBL]
+        if prec == "S" and not has_e:
+            return [K_LSGL]
+        if prec == "U" and has_e:
+            return [K_LEXP]
+        return []
+    return [K_LPREC] if prec in ("S", "D") else []
 
 
 def reasons(t):
@@ -435,6 +434,18 @@ def nontrivial(t):
 
 
 # ----------------------------------------------------------------------------- shrinking
+def _items_exprs(items):
+    out = []
+    for x in items:
+        if x[0] == "rng":
+            out += [x[1], x[2], x[3]]
+        elif x[0] == "named":
+            out.append(x[2])
+        else:
+            out.append(x)
+    return out
+
+
 def _expr_children(t):
     """sub-trees that are expressions on their own (can replace t)"""
     k = t[0]
@@ -442,43 +453,59 @@ def _expr_children(t):
     if k in ("un", "bin"):
         out += children(t)
     elif k == "call":
-        out += [x[2] if x[0] == "named" else x for x in t[2]]
+        out += _items_exprs(t[2])
     elif k == "acc":
-        for x in t[2]:
-            out += [x[1], x[2], x[3]] if x[0] == "rng" else [x]
+        s = t
+        while s is not None:
+            out += _items_exprs(s[2])
+            s = s[3]
     return [c for c in out if c[0] not in ("named", "rng")]
+
+
+def _simpler_items(items):
+    for i, x in enumerate(items):
+        if x[0] == "rng":
+            for j in (1, 2, 3):
+                if x[j] not in (ONE, V("i")):
+                    yield items[:i] + [x[:j] + (ONE if j == 3 else V("i"),) + x[j + 1:]] + items[i + 1:]
+                for c in _simpler(x[j]):
+                    yield items[:i] + [x[:j] + (c,) + x[j + 1:]] + items[i + 1:]
+        elif x[0] == "named":
+            for c in _simpler(x[2]):
+                yield items[:i] + [("named", x[1], c)] + items[i + 1:]
+        else:
+            if x != V("i"):
+                yield items[:i] + [V("i")] + items[i + 1:]
+            for c in _simpler(x):
+                yield items[:i] + [c] + items[i + 1:]
 
 
 def _simpler(t):
     """t with one proper sub-expression replaced by a leaf"""
     k = t[0]
-    leaf = V("a")
     if k == "un":
-        if t[2] != leaf and t[2][0] != "lit":
-            yield ("un", t[1], leaf)
+        if t[2] != V("a"):
+            yield ("un", t[1], V("a"))
         for c in _simpler(t[2]):
             yield ("un", t[1], c)
     elif k == "bin":
         for i in (2, 3):
-            if t[i][0] not in ("lit",) and t[i] != leaf and t[i] != V("b"):
-                yield t[:i] + (V("a") if i == 2 else V("b"),) + t[i + 1:]
+            leaf = V("a") if i == 2 else V("b")
+            if t[i] != leaf:
+                yield t[:i] + (leaf,) + t[i + 1:]
             for c in _simpler(t[i]):
                 yield t[:i] + (c,) + t[i + 1:]
     elif k == "call":
-        for i, x in enumerate(t[2]):
-            inner = x[2] if x[0] == "named" else x
-            for c in _simpler(inner):
-                nx = ("named", x[1], c) if x[0] == "named" else c
-                yield ("call", t[1], t[2][:i] + [nx] + t[2][i + 1:])
+        for items in _simpler_items(t[2]):
+            if t[1] == "REAL" and items[0][0] != "acc":
+                continue
+            yield ("call", t[1], items)
     elif k == "acc":
-        for i, x in enumerate(t[2]):
-            if x[0] == "rng":
-                for j in (1, 2, 3):
-                    for c in _simpler(x[j]):
-                        yield ("acc", t[1], t[2][:i] + [x[:j] + (c,) + x[j + 1:]] + t[2][i + 1:], t[3])
-            else:
-                for c in _simpler(x):
-                    yield ("acc", t[1], t[2][:i] + [c] + t[2][i + 1:], t[3])
+        for items in _simpler_items(t[2]):
+            yield ("acc", t[1], items, t[3])
+        if t[3] is not None:
+            for c in _simpler(t[3]):
+                yield ("acc", t[1], t[2], c)
 
 
 def shrink(t, fails, budget=400):
@@ -488,7 +515,7 @@ def shrink(t, fails, budget=400):
         progressed = False
         for cand in _expr_children(cur) + list(_simpler(cur)):
             budget -= 1
-            if size(cand) < size(cur) and fails(cand):
+            if (size(cand), len(repr(cand))) < (size(cur), len(repr(cur))) and fails(cand):
                 cur, progressed = cand, True
                 break
             if budget <= 0:
@@ -578,6 +605,18 @@ def rand_leaf(rng, odd=0.08):
     return rng.choice(CANON_LITS)
 
 
+INT_LITS = [l for l in CANON_LITS if l[1] == "INT"]
+ODD_INT_LITS = [l for l in ODD_LITS if l[1] == "INT"]
+
+
+def int_pos(rng, e, odd):
+    """an expression used directly as a subscript / range bound: literals there must be INTEGER
+    (Range.create refuses others; fparser2 reads v(1.0) as a structure constructor)"""
+    if e[0] == "lit" and e[1] != "INT":
+        return rng.choice(ODD_INT_LITS) if (odd and rng.random() < odd) else rng.choice(INT_LITS)
+    return e
+
+
 def rand_index(rng, d, odd):
     if rng.random() < 0.3:
         r = rng.random()
@@ -588,9 +627,10 @@ def rand_index(rng, d, odd):
         elif r < 0.8:
             st = ("lit", "INT", "2", "U")
         else:
-            st = rand_expr(rng, min(d, 2), odd)
-        return ("rng", rand_expr(rng, min(d, 2), odd), rand_expr(rng, min(d, 2), odd), st)
-    return rand_expr(rng, d, odd)
+            st = int_pos(rng, rand_expr(rng, min(d, 2), odd), odd)
+        return ("rng", int_pos(rng, rand_expr(rng, min(d, 2), odd), odd),
+                int_pos(rng, rand_expr(rng, min(d, 2), odd), odd), st)
+    return int_pos(rng, rand_expr(rng, d, odd), odd)
 
 
 def rand_expr(rng, d, odd=0.08):
@@ -612,7 +652,8 @@ def rand_expr(rng, d, odd=0.08):
         elif f in ("MAX", "MIN"):
             args = [rand_expr(rng, d - 1, odd) for _ in range(rng.choice([2, 2, 3]))]
         else:
-            args = [rand_expr(rng, d - 1, odd)]
+            # IntrinsicCall.create: REAL takes a Reference as its positional argument
+            args = [V(rng.choice(SCALARS + INTS))] if f == "REAL" else [rand_expr(rng, d - 1, odd)]
             if rng.random() < 0.6:
                 args.append(("named", "kind", rng.choice([V("wp"), ("lit", "INT", "8", "U")])))
         return ("call", f, args)
@@ -628,11 +669,12 @@ def rand_expr(rng, d, odd=0.08):
     if c == 2:
         return ("acc", "f", [], ("acc", "vals", [rand_index(rng, d - 1, odd), rand_index(rng, d - 2, odd)], None))
     if c == 3:
-        return ("acc", "f", [], ("acc", "subs", [rand_expr(rng, d - 1, odd)],
+        return ("acc", "f", [], ("acc", "subs", [int_pos(rng, rand_expr(rng, d - 1, odd), odd)],
                                  ("acc", "data", [rand_index(rng, d - 2, odd)], None)))
     if c == 4:
-        return ("acc", "fs", [rand_expr(rng, d - 1, odd)], ("acc", "grid", [], ("acc", "data", [rand_expr(rng, d - 2, odd)], None)))
-    return ("acc", "fs", [rand_expr(rng, d - 1, odd)], ("acc", "dx", [], None))
+        return ("acc", "fs", [int_pos(rng, rand_expr(rng, d - 1, odd), odd)],
+                ("acc", "grid", [], ("acc", "data", [int_pos(rng, rand_expr(rng, d - 2, odd), odd)], None)))
+    return ("acc", "fs", [int_pos(rng, rand_expr(rng, d - 1, odd), odd)], ("acc", "dx", [], None))
 
 
 # ----------------------------------------------------------------------------- grammar strings
@@ -673,7 +715,11 @@ def rand_tokens(rng, d):
             for i in range(n):
                 if i:
                     emit(",", "TComma")
+                mark = len(toks)
                 flat(dd - 1)
+                if name in ("arr", "v") and len(toks) == mark + 1 and "TLit" in toks[mark] and "CInt" not in toks[mark]:
+                    # fparser2 reads name(<non-integer literal>) as a structure constructor
+                    text[-1], toks[-1] = "j", '(TName "j")'
             emit(")", "TRP")
         elif r < 0.5:
             t, c = rng.choice(G_LITS)
